@@ -10,6 +10,7 @@ from engine.cfg import walk_noscope
 from engine.pysrc import Repo, F, dotted, src, calls_in
 from engine.effects import Effects, fmt as fmt_effect
 from engine import alpha
+from rules import tdscommon
 from engine.report import AnalysisError
 
 DAE = "andes/variables/dae.py"
@@ -220,9 +221,7 @@ def rule_replay(ctx, repo):
             continue
         f = F.method(repo, "TDS", mname, TDS)
         cn = f.calls("self.calc_h", exact=True)
-        tadv = [x for x in f.g.nodes() if f.g.data(x)["kind"] == "stmt" and isinstance(f.g.data(x)["ast"], ast.AugAssign) and
-                (dotted(f.g.data(x)["ast"].target) or "").endswith("dae.t") and isinstance(f.g.data(x)["ast"].op, ast.Add) and
-                src(f.g.data(x)["ast"].value) == "self.h"]
+        tadv = tdscommon.clock_nodes(repo, f)
         resync = [x for x in f.g.nodes() if f.g.data(x)["kind"] == "stmt" and isinstance(f.g.data(x)["ast"], ast.Assign) and
                   dotted(f.g.data(x)["ast"].targets[0]) == "self.k_csv"]
         # paths that abort the simulation (busted) are followed by no further replay step
